@@ -254,3 +254,59 @@ def exact_ideal_points(tier, rng, rep):
                 with np.errstate(all='ignore'):
                     rep.attempt("ideal_coords_run", inp, body)
                 rep.case(key=(n, tuple(v.tolist()), src, dst), nontrivial=True, sample=inp if (src, dst) == ("klein", "poincare") and n == 2 and v[0] == 5 else None)
+
+
+@bounded(P, "composites_with_mixed_representatives", functions=["geometry_tools/hyperbolic.py:Point.coords", "geometry_tools/hyperbolic.py:HyperbolicObject.kleinian_coords",
+                                                                "geometry_tools/hyperbolic.py:Point.hyperboloid_coords", "geometry_tools/hyperbolic.py:Point.distance"],
+         note="composite arrays whose units have different kinds of homogeneous representative - some with first coordinate exactly 1 (the origin, points built from chart coordinates), "
+              "others rescaled or normalised to the hyperboloid by an earlier query: every unit's coordinates in every model are the chart maps of that unit, before and after queries")
+def composites_with_mixed_representatives(tier, rng, rep):
+    N = 120 if tier == 'thorough' else 30
+    rep.rule = ("n = 1..4, composite shapes (3,), (2,2), (4,); units: the origin, Klein points, projective representatives scaled by 1 / 2 / -3 / 0.5 in every mix; histories: none, "
+                "distance to a point, hyperboloid coordinates, coords('hyperboloid') - each followed by coordinates in all five models and by distances (closed forms of contracts/spec.py)")
+    rep.bound = f"{N} composites x 4 histories"
+    for t in range(N):
+        n = 1 + t % 4
+        shape = [(3,), (2, 2), (4,)][t % 3]
+        m = int(np.prod(shape))
+        v = rng.normal(size=(m, n))
+        k = v / np.linalg.norm(v, axis=-1, keepdims=True) * rng.uniform(0.05, 0.9, size=(m, 1))
+        k[int(rng.integers(0, m))] = 0.0                                   # the origin: its hyperboloid representative has first coordinate exactly 1
+        scales = rng.choice([1.0, 1.0, 2.0, -3.0, 0.5], size=(m, 1))
+        if t % 2:
+            scales[:] = 1.0                                                  # all built from chart coordinates: x0 == 1 everywhere until a query normalises them
+        proj = (scales * spec.k2proj(k)).reshape(shape + (n + 1,))
+        kk = k.reshape(shape + (n,))
+        q = rng.normal(size=n); q = q / np.linalg.norm(q) * 0.4
+        for hist in ("none", "distance", "hyperboloid_coords", "coords_hyperboloid"):
+            inp = {"n": n, "shape": list(shape), "projective_data": proj.tolist(), "history": hist}
+
+            def body():
+                X = h.Point(proj.copy())
+                if hist == "distance":
+                    X.distance(h.Point(np.broadcast_to(spec.k2proj(q), proj.shape).copy()))
+                elif hist == "hyperboloid_coords":
+                    X.hyperboloid_coords()
+                elif hist == "coords_hyperboloid":
+                    X.coords("hyperboloid")
+                for mo in spec.MODELS:
+                    got = np.asarray(X.coords(mo), dtype=float)
+                    want = np.asarray(spec.from_klein(kk, mo), dtype=float)
+                    if mo == "projective":
+                        got, want = got / got[..., :1], want / want[..., :1]
+                    if mo == "hyperboloid":          # a negative representative is reported on the other sheet (-x denotes the same point; cf. the C12 rescaling contract)
+                        got = got * np.sign(got[..., :1])
+                    if got.shape != want.shape or not np.all(np.abs(got - want) <= 1e-7 * (1 + np.abs(want))):
+                        bad = int(np.argmax(np.max(np.abs(got - want), axis=-1))) if got.shape == want.shape else -1
+                        rep.fail("coordinates_are_the_chart_maps", f"after {hist}: {mo} coordinates of unit {bad} differ from the chart map of that unit", {**inp, "model": mo}); return
+                d = np.asarray(X.distance(h.Point(np.broadcast_to(spec.k2proj(q), proj.shape).copy())), dtype=float)
+                wd = np.arccosh(np.maximum(1.0, spec.cosh_d_klein(kk, q)))
+                if d.shape != wd.shape or not np.all(np.abs(d - wd) <= 1e-6):
+                    rep.fail("distance_closed_form", f"after {hist}", inp); return
+                kl = np.asarray(X.coords("klein"), dtype=float)
+                if not np.all(np.abs(np.arccosh(np.maximum(1.0, spec.cosh_d_klein(kl, q))) - d) <= 1e-6):
+                    rep.fail("klein_closed_form_agrees_with_distance", f"after {hist}", inp)
+            rep.attempt("coords_run", inp, body)
+            rep.case(key=(t, hist), nontrivial=hist != "none" or not np.all(scales == 1), sample=inp if (t, hist) == (0, "distance") else None)
+            if len(rep.failures) >= 3:
+                return
